@@ -69,6 +69,14 @@ Proof. exact unique_le_total. Qed.
 Print Assumptions C18_locations_le_substitutions.
 
 (* ---- slots inside string constants of the template (models/SlotEscape.v) ---- *)
+Theorem C18_negative_count_is_no_limit_and_reports_the_substitutions_performed : forall locs l0 count cbs,
+  ((count < 0)%Z -> subn_entry locs l0 count cbs = subn_entry locs l0 0%Z cbs) /\
+  (let c0 := if (count <? 0)%Z then 0%Z else count in let s := locs_run locs l0 (init c0 cbs) in
+   subn_entry locs l0 count cbs = (Z.of_nat (nonzero (per_loc s)), sum (per_loc s))) /\
+  (fst (subn_entry locs l0 count cbs) <= Z.of_nat (snd (subn_entry locs l0 count cbs)))%Z.
+Proof. intros. split; [apply negative_count_is_no_limit|]. split; [apply entry_counts_are_substitutions|apply entry_unique_le_total]. Qed.
+Print Assumptions C18_negative_count_is_no_limit_and_reports_the_substitutions_performed.
+
 Theorem C18_string_slot_reads_back_in_triple_quoted_template : forall q s T, is_quote q = true -> forallb plain s = true ->
   scan q (slot_escape s ++ T) = option_map (app s) (scan q T).
 Proof. exact slot_reads_back_in_triple_quoted. Qed.
